@@ -12,7 +12,7 @@ def make_spec(g, allow):
     r = g.r
     h = gen_history(g, allow)
     spec = dict(cfgs=h.cfgs, execs=h.execs, flags=set(h.flags), recmode=r.choice(['', '', 'true']),
-                modes=r.sample(REPLAY_MODES, 3), pre=[], nest=gen_nest(r, h.execs, 0.3), edit=suites.edit_choice(r, h.execs))
+                modes=r.sample(REPLAY_MODES, 3), pre=[], nest=gen_nest(r, h.execs, 0.3), edit=suites.edit_choice(r, h.execs), count=r.choice([1, 1, 2, 3, 3, 4]))
     if r.random() < 0.4:
         h0 = gen_history(g, ('nosafn',), max_tests=2, max_calls=3, ncfg=len(h.cfgs))
         spec['flags'] |= h0.flags
@@ -61,9 +61,13 @@ def render(tag, spec):
                     return None
                 return exp_silent(line, raw, ww)
             w.add(c.op(cfgno, te), ('replay-silent', exp))
-        # the same calls in the same per-test order; the interleaving of tests is the same too
-        emit_nested(w, spec['execs'], spec.get('nest', {}), lambda i: base2 + i + 1, rep_call)
-        texec = base2 + len(spec['execs'])
+        # the same calls in the same per-test order; the interleaving of tests is the same too; the whole round
+        # once, twice or three times in the SAME process (go test -count=N): every execution of a test
+        # addresses the slots 1..n again
+        for _rep in range(spec.get('count', 1)):
+            emit_nested(w, spec['execs'], spec.get('nest', {}), lambda i: base2 + i + 1, rep_call)
+            base2 += len(spec['execs'])
+        texec = base2
         allrec = [i for ei in rec_idx for i in rec_idx[ei]]
 
         def exp_dir(line, raw, ww, ref=ref, allrec=allrec):
